@@ -68,6 +68,8 @@ type Engine struct {
 	// id is implied).  Findings of other properties seen during a run are
 	// counted under "foreign" and not reported here.
 	Owns []string
+	// RaceDirectedCap limits the directed part in race builds (0 = all).
+	RaceDirectedCap int
 }
 
 var engines = map[string]*Engine{}
@@ -324,6 +326,9 @@ func workerMain(e *Engine, tier string, seed uint64, from, to, stride, offset in
 		}
 		enc.Encode(workerMsg{Kind: "S", Index: i})
 		out.Flush()
+		if simrt.RaceBuild {
+			fmt.Fprintf(os.Stderr, "@@RUN %d\n", i)
+		}
 		rc := execRun(e, tier, seed, i, nil, nil, false, false)
 		agg.add(rc)
 		for k := range rc.Findings {
@@ -649,6 +654,19 @@ func parentMain(e *Engine, tier string, seed uint64, workers, runsOverride, secs
 			secs = 1500
 		}
 	}
+	if simrt.RaceBuild {
+		// the race batch is a supplement to the plain run: fewer runs
+		nrand /= 4
+		if secs > 60 && tier != "thorough" {
+			secs = 60
+		}
+		if tier == "thorough" {
+			secs /= 3
+		}
+		if e.RaceDirectedCap > 0 && ndir > e.RaceDirectedCap {
+			ndir = e.RaceDirectedCap
+		}
+	}
 	if runsOverride >= 0 {
 		nrand = runsOverride
 	}
@@ -662,6 +680,7 @@ func parentMain(e *Engine, tier string, seed uint64, workers, runsOverride, secs
 	var mu sync.Mutex
 	agg := newAgg()
 	var finds []found
+	var races []raceReport
 	var wg sync.WaitGroup
 	if workers > total {
 		workers = total
@@ -675,10 +694,14 @@ func parentMain(e *Engine, tier string, seed uint64, workers, runsOverride, secs
 			defer wg.Done()
 			cmd := exec.Command(self, "-worker", "-prop", e.ID, "-tier", tier, "-seed", fmt.Sprint(seed),
 				"-from", "0", "-to", fmt.Sprint(total), "-stride", fmt.Sprint(workers), "-offset", fmt.Sprint(w), "-secs", fmt.Sprint(secs))
-			cmd.Env = append(os.Environ(), "GORACE=halt_on_error=1 exitcode=66")
+			cmd.Env = append(os.Environ(), "GORACE=halt_on_error=0 exitcode=0")
 			stdout, _ := cmd.StdoutPipe()
 			var errb strings.Builder
-			cmd.Stderr = &limitedWriter{w: &errb, n: 1 << 16}
+			lim := 1 << 16
+			if simrt.RaceBuild {
+				lim = 64 << 20
+			}
+			cmd.Stderr = &limitedWriter{w: &errb, n: lim}
 			if err := cmd.Start(); err != nil {
 				mu.Lock()
 				finds = append(finds, found{crashed: true, stderr: "start: " + err.Error(), msg: workerMsg{Index: -1}})
@@ -714,6 +737,13 @@ func parentMain(e *Engine, tier string, seed uint64, workers, runsOverride, secs
 				}
 			}
 			err := cmd.Wait()
+			if simrt.RaceBuild {
+				for _, rr := range parseRaceReports(errb.String()) {
+					mu.Lock()
+					races = append(races, rr)
+					mu.Unlock()
+				}
+			}
 			if err != nil || !gotAgg {
 				mu.Lock()
 				finds = append(finds, found{crashed: true, stderr: errb.String(), msg: workerMsg{Index: cur}})
@@ -832,6 +862,48 @@ func parentMain(e *Engine, tier string, seed uint64, workers, runsOverride, secs
 		violations++
 		exit = 1
 	}
+	// data races reported by the Go race detector in non-harness code
+	sort.Slice(races, func(i, j int) bool { return races[i].index < races[j].index })
+	harnessReports := 0
+	for _, rr := range races {
+		if rr.harness {
+			harnessReports++
+			continue
+		}
+		fnd := Finding{Prop: e.ID, Oracle: "data-race", Key: "data-race:" + rr.key, Detail: rr.summary}
+		if isKnown(known, fnd) != nil {
+			fmt.Printf("KNOWN-FINDING: property=%s key=%s (race detector, run index %d)\n", e.ID, fnd.Key, rr.index)
+			continue
+		}
+		if reported[fnd.Key] {
+			continue
+		}
+		reported[fnd.Key] = true
+		path := filepath.Join(replayDir, fmt.Sprintf("%s-seed%d-idx%d-race.json", e.ID, seed, rr.index))
+		writeJSON(path, &ReplayFile{Property: e.ID, Seed: seed, Tier: tier, Index: rr.index, Violation: fnd, Outcome: "data-race",
+			Note: "reported by the Go race detector in the -race build; replay: re-run this index with the race build (./check " + e.ID + " thorough re-runs it)", Trace: strings.Split(rr.text, "\n")})
+		// confirm in a fresh process (tsan keeps four shadow cells per word and
+		// evicts at random, so retry)
+		confirmed := false
+		for try := 0; try < 5 && !confirmed; try++ {
+			cmd := exec.Command(self, "-prop", e.ID, "-tier", tier, "-seed", fmt.Sprint(seed), "-one", fmt.Sprint(rr.index))
+			cmd.Env = append(os.Environ(), "GORACE=halt_on_error=0 exitcode=0")
+			out, _ := cmd.CombinedOutput()
+			for _, r2 := range parseRaceReports("@@RUN " + fmt.Sprint(rr.index) + "\n" + string(out)) {
+				if !r2.harness && r2.key == rr.key {
+					confirmed = true
+				}
+			}
+		}
+		if !confirmed {
+			fmt.Fprintf(os.Stderr, "race report at index %d did not reproduce in 5 fresh processes; kept at %s\n%s\n", rr.index, path, rr.text)
+			return 2
+		}
+		fmt.Printf("violation: %s\n", fnd)
+		fmt.Printf("VIOLATION property=%s replay=%s\n", e.ID, path)
+		violations++
+		exit = 1
+	}
 	for _, f := range extraFindings {
 		if kn := isKnown(known, f); kn != nil {
 			fmt.Printf("KNOWN-FINDING: property=%s key=%s %s\n", f.Prop, f.Key, kn.Text)
@@ -874,6 +946,7 @@ func parentMain(e *Engine, tier string, seed uint64, workers, runsOverride, secs
 		"workers":             workers,
 		"known_findings_seen": agg.KnownHits,
 		"race_detector":       simrt.RaceBuild,
+		"race_reports_in_harness_code_ignored": harnessReports,
 	}
 	for k, v := range extraNote {
 		cov[k] = v
@@ -890,7 +963,22 @@ func parentMain(e *Engine, tier string, seed uint64, workers, runsOverride, secs
 	if ev.Level == "" {
 		ev.Level = "exploration"
 	}
-	writeJSON(filepath.Join(verifDir(), "evidence", e.ID+".json"), ev)
+	evPath := filepath.Join(verifDir(), "evidence", e.ID+".json")
+	racePath := filepath.Join(verifDir(), "evidence", e.ID+".race.json")
+	if simrt.RaceBuild {
+		evPath = racePath
+	} else if b, err := os.ReadFile(racePath); err == nil {
+		// embed the summary of the race-detector batch run just before
+		var rev evidence
+		if json.Unmarshal(b, &rev) == nil && rev.Seed == seed && rev.Tier == tier {
+			ev.Coverage["race_detector_batch"] = map[string]interface{}{
+				"runs": rev.Coverage["runs"], "steps": rev.Coverage["simulated_time_steps"], "wall_s": rev.WallS,
+				"violations": rev.Violations, "harness_reports_ignored": rev.Coverage["race_reports_in_harness_code_ignored"],
+				"distinct_schedule_fingerprints": rev.Coverage["distinct_schedule_fingerprints"],
+			}
+		}
+	}
+	writeJSON(evPath, ev)
 	fmt.Printf("%s %s seed=%d: %d runs (%d directed + random), %d steps, %d distinct schedules, %.1fs, violations=%d\n",
 		e.ID, tier, seed, agg.Runs, ndir, agg.Steps, distinct, wall, violations)
 	if agg.Runs == 0 {
@@ -978,4 +1066,72 @@ func (l *limitedWriter) Write(p []byte) (int, error) {
 	l.n -= len(q)
 	l.w.Write(q)
 	return len(p), nil
+}
+
+// ---------------------------------------------------------- race reports
+
+type raceReport struct {
+	index   int
+	text    string
+	harness bool
+	key     string
+	summary string
+}
+
+// parseRaceReports splits a worker's stderr into race detector reports,
+// attributes each to the run announced before it, and classifies it: a report
+// counts against p9 only if, for both accesses, the innermost frame outside
+// the Go runtime lies outside the simulation harness (zzverif).  The harness
+// shares bookkeeping between tasks on purpose and its hand-offs are hidden
+// from the detector, so reports inside it are expected and meaningless.
+func parseRaceReports(stderr string) []raceReport {
+	var out []raceReport
+	idx := -1
+	lines := strings.Split(stderr, "\n")
+	for i := 0; i < len(lines); i++ {
+		l := lines[i]
+		if strings.HasPrefix(l, "@@RUN ") {
+			fmt.Sscanf(l, "@@RUN %d", &idx)
+			continue
+		}
+		if !strings.HasPrefix(l, "WARNING: DATA RACE") {
+			continue
+		}
+		j := i + 1
+		for j < len(lines) && !strings.HasPrefix(lines[j], "==================") {
+			j++
+		}
+		block := lines[i:j]
+		i = j
+		rr := raceReport{index: idx, text: strings.Join(block, "\n")}
+		// the two access stacks are the first two sections
+		var tops []string
+		for k := 0; k < len(block) && len(tops) < 2; k++ {
+			b := block[k]
+			if strings.HasPrefix(b, "Read at") || strings.HasPrefix(b, "Write at") || strings.HasPrefix(b, "Previous read") || strings.HasPrefix(b, "Previous write") ||
+				strings.HasPrefix(b, "Atomic") || strings.HasPrefix(b, "Previous atomic") {
+				top := ""
+				for m := k + 1; m < len(block) && strings.TrimSpace(block[m]) != ""; m += 2 {
+					fn := strings.TrimSpace(block[m])
+					if strings.HasPrefix(fn, "runtime.") || strings.HasPrefix(fn, "sync.") || strings.HasPrefix(fn, "sync/atomic.") || strings.HasPrefix(fn, "internal/") || strings.HasPrefix(fn, "reflect.") || strings.HasPrefix(fn, "sort.") || strings.HasPrefix(fn, "strings.") || strings.HasPrefix(fn, "fmt.") {
+						continue
+					}
+					top = fn
+					break
+				}
+				tops = append(tops, top)
+			}
+		}
+		rr.harness = len(tops) < 2
+		for _, t := range tops {
+			if t == "" || strings.Contains(t, "/zzverif/") {
+				rr.harness = true
+			}
+		}
+		sort.Strings(tops)
+		rr.key = strings.Join(tops, " <-> ")
+		rr.summary = "race detector: unsynchronised accesses in " + rr.key
+		out = append(out, rr)
+	}
+	return out
 }
